@@ -24,7 +24,9 @@ RULE += (
     "dict with constants. A structured family fails a task from outside while it is suspended (an inner "
     "context cannot be re-activated) and makes its body raise once more while its generator is closed (an "
     "outer context's pause() failing in __exit__). Bodies that keep executing inside generator.close() of a "
-    "task that already has its outcome are counted, not judged."
+    "task that already has its outcome are counted, not judged. Another structured family lets a task SURVIVE "
+    "the guard (it catches the RuntimeError of its nested synchronous call) and go on with further synchronous "
+    "calls, contexts and batched work, with the active-task probes applied throughout."
 )
 ASSUMPTIONS = [
     "BaseException failures are outside the statement ('any Exception') and are not injected here",
